@@ -142,11 +142,8 @@ class H2Protocol:
             self.connection.initiate_connection()
         await self._flush()
         if headers is not None:
-            event = h2.events.RequestReceived()
-            event.stream_id = 1
-            event.headers = headers
-            await self._create_stream(event)
-            await self.streams[event.stream_id].handle(EndBody(stream_id=event.stream_id))
+            await self._create_stream(1, headers)
+            await self.streams[1].handle(EndBody(stream_id=1))
         self.task_group.spawn(self.send_task)
 
     async def send_task(self) -> None:
@@ -270,7 +267,7 @@ class H2Protocol:
                         {h2.settings.SettingCodes.MAX_CONCURRENT_STREAMS: 0}
                     )
                 else:
-                    await self._create_stream(event)
+                    await self._create_stream(event.stream_id, event.headers)
                     await self.send(Updated(idle=False))
 
                 if self.keep_alive_requests > self.config.keep_alive_max_requests:
@@ -341,15 +338,15 @@ class H2Protocol:
             self.priority.block(event.stream_id)
         await self.has_data.set()
 
-    async def _create_stream(self, request: h2.events.RequestReceived) -> None:
-        for name, value in request.headers:
+    async def _create_stream(self, stream_id: int, headers: List[Tuple[bytes, bytes]]) -> None:
+        for name, value in headers:
             if name == b":method":
                 method = value.decode("ascii").upper()
             elif name == b":path":
                 raw_path = value
 
         if method == "CONNECT":
-            self.streams[request.stream_id] = WSStream(
+            self.streams[stream_id] = WSStream(
                 self.app,
                 self.config,
                 self.context,
@@ -358,10 +355,10 @@ class H2Protocol:
                 self.client,
                 self.server,
                 self.stream_send,
-                request.stream_id,
+                stream_id,
             )
         else:
-            self.streams[request.stream_id] = HTTPStream(
+            self.streams[stream_id] = HTTPStream(
                 self.app,
                 self.config,
                 self.context,
@@ -370,21 +367,21 @@ class H2Protocol:
                 self.client,
                 self.server,
                 self.stream_send,
-                request.stream_id,
+                stream_id,
             )
-        self.stream_buffers[request.stream_id] = StreamBuffer(self.context.event_class)
+        self.stream_buffers[stream_id] = StreamBuffer(self.context.event_class)
         try:
-            self.priority.insert_stream(request.stream_id)
+            self.priority.insert_stream(stream_id)
         except priority.DuplicateStreamError:
             # Recieved PRIORITY frame before HEADERS frame
             pass
         else:
-            self.priority.block(request.stream_id)
+            self.priority.block(stream_id)
 
-        await self.streams[request.stream_id].handle(
+        await self.streams[stream_id].handle(
             Request(
-                stream_id=request.stream_id,
-                headers=filter_pseudo_headers(request.headers),
+                stream_id=stream_id,
+                headers=filter_pseudo_headers(headers),
                 http_version="2",
                 method=method,
                 raw_path=raw_path,
@@ -413,11 +410,8 @@ class H2Protocol:
             # push on a push promises request.
             pass
         else:
-            event = h2.events.RequestReceived()
-            event.stream_id = push_stream_id
-            event.headers = request_headers
-            await self._create_stream(event)
-            await self.streams[event.stream_id].handle(EndBody(stream_id=event.stream_id))
+            await self._create_stream(push_stream_id, request_headers)
+            await self.streams[push_stream_id].handle(EndBody(stream_id=push_stream_id))
             self.keep_alive_requests += 1
 
     async def _reset_stream(self, stream_id: int) -> None:
